@@ -267,6 +267,12 @@ pub fn evaluate(tok: &str) -> Eval {
         Some(p) => (chars[..p].to_vec(), chars[p + 1..].to_vec()),
         None => (chars.clone(), vec![]),
     };
+    if let Some(c0) = frac_part.first() {
+        if SMALL.contains(c0) || LARGE.iter().any(|l| l.0 == *c0) {
+            // "8.万5", "八.千": the point is followed by a unit instead of a digit
+            return Eval::Malformed("dangling point");
+        }
+    }
     let mut frac = String::new();
     for c in &frac_part {
         match dval(*c) {
@@ -541,7 +547,16 @@ pub fn run(ctx: &Ctx, rep: &mut Report) {
                     _ => gen_units(&mut rng),
                 };
                 let malformed = rng.chance(1, 4);
-                let raw = if malformed { if rng.chance(1, 3) { gen_bad_grouping(&mut rng) } else { mutate(&mut rng, &n) } } else { n.text.clone() };
+                let raw = if malformed {
+                    match rng.below(6) {
+                        0 | 1 => gen_bad_grouping(&mut rng),
+                        // a point directly followed by a unit, then more digits / units
+                        2 => format!("{}.{}{}", rng.s(&["8", "3", "12", "二", "1,000"]), rng.s(&["十", "百", "千", "万", "億", "兆"]), rng.s(&["5", "2千万", "五千億", "", "00", "3.5"])),
+                        _ => mutate(&mut rng, &n),
+                    }
+                } else {
+                    n.text.clone()
+                };
                 let spelled = if default_input && rng.chance(1, 3) { fullwidth(&raw) } else { raw.clone() };
                 let start = text.len();
                 text.push_str(&spelled);
